@@ -1,7 +1,7 @@
 """C04 - full loading never imports, calls or instantiates what a document names."""
 import sys
 
-from sa import report, rules_registry as RR, rules_confine as RC
+from sa import report, effects as E, rules_registry as RR, rules_confine as RC
 
 UNIVERSES = RR.FULL_LOADERS
 LOOKUP_OK = {'S-lookup': {'constructor.FullConstructor.find_python_name'}}
@@ -26,6 +26,7 @@ def run(ctx, repo):
     RR.r_registry_decl(ctx, repo)
     RR.r_cow(ctx, repo, only=['yaml_constructors', 'yaml_multi_constructors'])
     RR.r_sole_writer(ctx, repo)
+    E.r_global_readonly(ctx, repo)
     RR.r_dispatch_self(ctx, repo)
     RC.r_loader_composition(ctx, repo, {'loader.FullLoader': 'constructor.FullConstructor',
                                         'cyaml.CFullLoader': 'constructor.FullConstructor'})
